@@ -212,7 +212,9 @@ func atoms() []atom {
 	}
 	add("addidx", func(t *schema.Table) schema.Change { return &schema.AddIndex{I: ix(t, "i_new")} })
 	add("dropidx", func(t *schema.Table) schema.Change { return &schema.DropIndex{I: ix(t, "i_old")} })
-	add("dropidx-auto", func(t *schema.Table) schema.Change { return &schema.DropIndex{I: ix(t, "sqlite_autoindex_"+t.Name+"_1")} })
+	add("dropidx-auto", func(t *schema.Table) schema.Change {
+		return &schema.DropIndex{I: ix(t, "sqlite_autoindex_"+t.Name+"_1")}
+	})
 	add("renidx", func(t *schema.Table) schema.Change {
 		return &schema.RenameIndex{From: ix(t, "i_old"), To: ix(t, "i_ren")}
 	})
